@@ -26,7 +26,17 @@ func main() {
 	dump := flag.String("dump", "", "debug: dump canonical forms of a function (e.g. raft:(*Raft).onVoteRequest)")
 	explain := flag.String("explain", "", "print a stored violation file")
 	list := flag.Bool("list", false, "list registered properties")
+	overlay := flag.String("overlay", "", "dev only (mutation sweep): ORIG=REPLACEMENT substitutes one source file's contents")
 	flag.Parse()
+	if *overlay != "" {
+		kv := strings.SplitN(*overlay, "=", 2)
+		b, err := os.ReadFile(kv[1])
+		if err != nil {
+			fmt.Println(err)
+			os.Exit(2)
+		}
+		core.Overlay = map[string][]byte{kv[0]: b}
+	}
 
 	if *verif == "" {
 		exe, err := os.Executable()
@@ -58,8 +68,48 @@ func main() {
 		}
 	}
 	start := time.Now()
+	if *prop == "all" {
+		os.Exit(runAll(*tier, *repo, *verif))
+	}
 	code := run(*prop, *tier, *repo, *verif, *dump, start)
 	os.Exit(code)
+}
+
+// runAll decides every property on one loaded program (dev use: mutation
+// sweep and audits). One line "RESULT <id> rc=<n> <first violation>" each.
+func runAll(tier, repo, verif string) (worst int) {
+	var p *core.Program
+	func() {
+		defer func() {
+			if v := recover(); v != nil {
+				fmt.Printf("UNDECIDED load: %v\n", v)
+				worst = 2
+			}
+		}()
+		p = core.Load(repo, "")
+	}()
+	if p == nil {
+		return 2
+	}
+	for _, id := range props.IDs() {
+		rc := func() (code int) {
+			defer func() {
+				if v := recover(); v != nil {
+					fmt.Printf("UNDECIDED property=%s %v\n", id, v)
+					code = 2
+				}
+			}()
+			pr := props.Get(id)
+			ctx := core.NewCtx(p, id, tier)
+			pr.Run(ctx)
+			return ctx.Finish(verif, time.Now(), pr.Assumptions, pr.Explanation)
+		}()
+		fmt.Printf("RESULT %s rc=%d\n", id, rc)
+		if rc > worst {
+			worst = rc
+		}
+	}
+	return worst
 }
 
 func flagSet(name string) bool {
